@@ -78,15 +78,16 @@ func (s *State) clone() *State {
 }
 
 type walkResult struct {
-	at          map[ast.Node]*State
-	undecided   []string
-	deferred    map[ast.Node]bool // call nodes that are deferred
-	inGo        map[ast.Node]bool
-	exits       []exitPoint
-	inherited   int        // number of Done entries inherited from the sole call site (extracted-block helper)
-	mustDone    []ast.Node // calls executed on every returning path (beyond the inherited ones)
-	assignCount map[types.Object]int
-	endOf       map[ast.Node]*State // state at the fall-through end of an if/else/loop body block
+	at             map[ast.Node]*State
+	undecided      []string
+	deferred       map[ast.Node]bool // call nodes that are deferred
+	inGo           map[ast.Node]bool
+	exits          []exitPoint
+	inheritedFacts map[*Fact]bool // facts taken over from the sole call site
+	inherited      int            // number of Done entries inherited from the sole call site (extracted-block helper)
+	mustDone       []ast.Node     // calls executed on every returning path (beyond the inherited ones)
+	assignCount    map[types.Object]int
+	endOf          map[ast.Node]*State // state at the fall-through end of an if/else/loop body block
 }
 
 type exitPoint struct {
@@ -183,6 +184,10 @@ func (p *Prog) Walk(fn *Func) *walkResult {
 			if cst := cr.at[hs.Call]; cst != nil && !cst.Dead {
 				st = w.inheritState(hs, cst)
 				w.res.inherited = len(st.Done)
+				w.res.inheritedFacts = map[*Fact]bool{}
+				for _, f := range st.Facts {
+					w.res.inheritedFacts[f] = true
+				}
 			}
 		}
 	}
